@@ -297,6 +297,49 @@ def ob_jail2(cx):
     cx.require(R.jail_info.transports is None, "teardown_jail left the jail in place")
 
 
+SV = "breezy.bzr.smart.server"
+
+
+def ob_userdirs(cx):
+    """BzrServerFactory._expand_userdirs (the path filter in front of the chroot): a '~user/REST' path is turned into the
+    user's directory relative to the served directory - and the REST is passed on exactly as received: its escaping level
+    is what keeps an escaped separator a literal character further down, so it must be neither unescaped nor re-escaped.
+    Paths that do not start with '~', and users whose home is outside the served directory, are passed on untouched."""
+    S = cx.mod(SV)
+    f = object.__new__(S.BzrServerFactory)
+    base = cx.pick("base_path", ["/home/", "/srv/"])
+    f.base_path = base
+    calls = []
+
+    def expander(path):
+        # os.path.expanduser for '~name/rest': the home of name, followed by '/rest' (characters taken literally)
+        calls.append(path)
+        i = path.find("/")
+        if i < 0:
+            i = len(path)
+        return "/home/" + ("u" if i == 1 else path[1:i]) + path[i:]
+    f.userdir_expander = expander
+    tilde = bool(cx.choose("starts_with_tilde", 0, 1))
+    rest = cx.str("rest", cx.choose("lrest", 0, cx.p("lrest")), "u/.%2Fe")
+    path = ("~" + rest) if tilde else rest
+    if not tilde and len(rest):
+        cx.assume(rest[0] != "~")
+    got = f._expand_userdirs(path)
+    if not tilde or base != "/home/":
+        cx.require(got == path, "a path that is not below a user directory of the served tree was rewritten")
+        cx.cover("untouched")
+    else:
+        i = path.find("/")
+        tail = "" if cx.truth(i < 0) else path[i:]
+        cx.require(got.endswith(tail) or got.endswith(tail + "/"),
+                   "the part of the path below the user directory was rewritten (escaping level changed)")
+        cx.require(len(got) <= len(path) + 2, "expanded path longer than the user directory plus the given rest")
+        cx.cover("expanded")
+        if len(tail) > 1:
+            cx.cover("with_rest")
+    cx.observe("got", got)
+
+
 def obligations(tier):
     q = tier == "quick"
     p = dict(lpath=5 if q else 7, alpha=ALPHA)
@@ -306,4 +349,7 @@ def obligations(tier):
            setup=setup, bounds="client paths <= %d chars over %r; roots %r; VFS and non-VFS requests" % (p["lpath"], ALPHA, ROOTS)),
         Ob("pre_open_hook", ob_jail2, [RQ], dict(lpath=4 if q else 5), to, 1, ["no_jail", "inside", "outside"],
            bounds="<= 2 jail bases of <= 3 chars over 'a/b', target base <= %d chars" % (4 if q else 5)),
+        Ob("expand_userdirs", ob_userdirs, [SV], dict(lrest=4 if q else 6), to, 1, ["untouched", "expanded", "with_rest"], setup=setup,
+           bounds="paths '~' + <= %d chars over 'u/.%%2Fe' (or without '~'), served directory containing the home directories "
+                  "or not" % (4 if q else 6)),
     ]
